@@ -7,6 +7,9 @@
 (*                                                                         *)
 (* Input record `in`                                                       *)
 (*   media   : STRING      the media type chosen by createHttpRequest      *)
+(*   method  : STRING      HTTP method of the operation                    *)
+(*   presetct: STRING      a Content-Type header set by the params writer  *)
+(*                         ("" = none)                                     *)
 (*   payload : "none" | "value" | "reader" | "readcloser"                   *)
 (*   fields  : Seq([k |-> bytes, vs |-> Seq(bytes)])       distinct keys   *)
 (*   files   : Seq([field |-> bytes, items |-> Seq(item)]) distinct fields *)
@@ -76,6 +79,33 @@ BaseName(s) ==
        ELSE SubSeq(t, LastSlash(t, Len(t)) + 1, Len(t))
 
 ---------------------------------------------------------------------------
+(* Content-Disposition parameters: escapeQuotes on the client, a MIME       *)
+(* quoted-string parser on the other side (mime.consumeValue: a backslash   *)
+(* followed by a tspecial is an escape, any other backslash is literal)     *)
+QUOTE == 34
+BSLASH == 92
+TSpecials == {40, 41, 60, 62, 64, 44, 59, 58, 92, 34, 47, 91, 93, 63, 61}     \* ( ) < > @ , ; : \ " / [ ] ? =
+
+RECURSIVE EscapeAll(_)
+EscapeAll(s) == IF s = <<>> THEN <<>>
+                ELSE (IF Head(s) \in {BSLASH, QUOTE} THEN <<BSLASH, Head(s)>> ELSE <<Head(s)>>) \o EscapeAll(Tail(s))
+\* strings.NewReplacer("\\", "\\\\", `"`, "\\\"").Replace(s); mutant "quotefastpath": unchanged when s has no quote
+EscapeQuotes(s) ==
+  IF Mutant = "quotefastpath" /\ \A i \in 1..Len(s) : s[i] # QUOTE THEN s ELSE EscapeAll(s)
+
+\* parse the text after an opening quote: [ok, v]
+RECURSIVE ParseQuoted(_, _)
+ParseQuoted(w, acc) ==
+  IF w = <<>> THEN [ok |-> FALSE, v |-> <<>>]                              \* no closing quote
+  ELSE IF Head(w) = QUOTE THEN [ok |-> TRUE, v |-> acc]
+  ELSE IF Head(w) = BSLASH /\ Len(w) >= 2 /\ w[2] \in TSpecials THEN ParseQuoted(SubSeq(w, 3, Len(w)), Append(acc, w[2]))
+  ELSE ParseQuoted(Tail(w), Append(acc, Head(w)))
+
+\* the name a MIME reader finds in  name="<escaped>"
+WireName(n) == LET p == ParseQuoted(EscapeQuotes(n) \o <<QUOTE>>, <<>>) IN IF p.ok THEN <<p.v>> ELSE <<>>
+NameSurvives(n) == WireName(n) = <<n>>
+
+---------------------------------------------------------------------------
 (* flattening of the caller's maps                                         *)
 RECURSIVE FieldPairs(_)
 FieldPairs(fields) ==      \* every (key, value) of the form fields
@@ -108,8 +138,9 @@ CodeKind(in) ==
 CodeFilePart(in, ids, ref) ==
   LET f  == in.files[ref[1]]
       it == f.items[ref[2]]
-  IN [field    |-> f.field,
-      filename |-> IF Mutant = "nobase" THEN it.name ELSE BaseName(it.name),
+      wn(n) == IF WireName(n) = <<>> THEN <<>> ELSE WireName(n)[1]        \* unparseable -> no such part (empty names)
+  IN [field    |-> wn(f.field),
+      filename |-> wn(IF Mutant = "nobase" THEN it.name ELSE BaseName(it.name)),
       ctype    |-> IF it.declared # "" /\ Mutant # "nodeclared" THEN it.declared ELSE CodeSniff(it),
       len      |-> it.len,
       cid      |-> ids.files[ref[1]][ref[2]]]
@@ -121,7 +152,9 @@ CodeFileParts(in, ids) ==
 
 CodeFieldPairs(in) ==
   LET ps == FieldPairs(in.fields)
-  IN IF Mutant = "dropfield" /\ ps # <<>> THEN Tail(ps) ELSE ps
+      \* in a multipart body the field name travels in a quoted-string as well
+      qs == IF IsMultipart(in) THEN [i \in 1..Len(ps) |-> [k |-> IF WireName(ps[i].k) = <<>> THEN <<>> ELSE WireName(ps[i].k)[1], v |-> ps[i].v]] ELSE ps
+  IN IF Mutant = "dropfield" /\ qs # <<>> THEN Tail(qs) ELSE qs
 
 \* the getBody override: state [streaming, copied, buf, stream, shown]
 \* streaming: the request body is not r.buf (reader payload or multipart pipe)
@@ -147,8 +180,14 @@ CodeAuth(in, streaming, content) ==
 CodeBody(in, ids) ==
   LET kind == CodeKind(in) IN
   [kind     |-> kind,
-   ctmedia  |-> CASE kind = "empty"     -> ""
+   \* r.header.Set(Content-Type, mediaType) in every body branch: a value set by the params writer is replaced.
+   \* mutant "latectset": for stream payloads only the fallback after DoneChoosingBodySource sets it
+   \* (CanHaveBody(method) and no header yet)
+   ctmedia  |-> CASE kind = "empty"     -> in.presetct
                   [] kind = "multipart" -> IF Mutant = "noswitch" THEN in.media ELSE MangledMedia(in.media)
+                  [] kind = "raw" /\ Mutant = "latectset" ->
+                       IF in.presetct # "" THEN in.presetct
+                       ELSE IF in.method \in {"POST", "PUT", "PATCH", "DELETE"} THEN in.media ELSE ""
                   [] OTHER              -> in.media,
    boundary |-> kind = "multipart",
    pairs    |-> IF kind \in {"urlencoded", "multipart"} THEN CodeFieldPairs(in) ELSE <<>>,
